@@ -1,8 +1,178 @@
-/- C02 — analytic first derivatives (assembly).  Statements below; model in Ecpint/Model/Deriv.lean. -/
+/-
+C02 — analytic first derivatives of a shell pair: the assembly.
+
+Model: Ecpint/Model/Deriv.lean (`N_INDEX` from Gen/IndexMaps.lean, regenerated every run).
+Proved here, for EVERY angular momentum (no MAX_L), over any commutative ring:
+  * the Cartesian loops enumerate x^k y^l z^m, k+l+m = L, with row `N_INDEX(l,m)`;
+  * `left_shell_derivative` returns  −a_q·Q₋[a − e_q] + 2·Q₊[a + e_q]  for every component a and
+    coordinate q, every row it reads is in range, and a clamped row is only ever multiplied by 0;
+  * `compute_shell_pair_derivative`: what the nine matrices are in each of the four centre-coincidence
+    branches, the translational sum rule A + B + C = 0 in every branch, and additivity at coincident
+    centres (the sum over coincident centres is minus the derivative of the remaining centre);
+  * the calculus identity behind it: d/dA [(x−A)^k e^{−α(x−A)²}].
+-/
 import Ecpint.Model.Deriv
+import Ecpint.Lemmas.Deriv
+import Mathlib.Tactic.Ring
+import Mathlib.Tactic.Linarith
+import Mathlib.Analysis.SpecialFunctions.ExpDeriv
+import Mathlib.Analysis.Calculus.Deriv.Pow
+
 namespace Ecpint.C02
 open Ecpint.Deriv
 
-theorem cartList_small : cartList 2 = [(2,0,0),(1,1,0),(1,0,1),(0,2,0),(0,1,1),(0,0,2)] := by decide
+/-! ### Cartesian ordering -/
+
+theorem nIdx_eq (l m : Nat) : nIdx l m = (l + m) * (l + m + 1) / 2 + m := by
+  exact nIdx_eq_nat l m
+
+theorem cartList_length (L : Nat) : (cartList L).length = ncart L := by
+  exact cartList_length_tri L
+
+/-- the component x^(L-l-m) y^l z^m sits at position `N_INDEX(l,m)` of the loop order -/
+theorem cartList_get (L l m : Nat) (h : l + m ≤ L) :
+    (cartList L)[nIdx l m]? = some (L - l - m, l, m) := by
+  exact cartList_get_tri L l m h
+
+/-- the loops enumerate exactly the exponent triples of degree L -/
+theorem cartList_mem (L : Nat) (a : Nat × Nat × Nat) :
+    a ∈ cartList L ↔ a.1 + a.2.1 + a.2.2 = L := by
+  exact cartList_mem_deg L a
+
+/-- row of a component inside its shell -/
+def rowOf (a : Nat × Nat × Nat) : Nat := nIdx a.2.1 a.2.2
+
+def inc (a : Nat × Nat × Nat) (q : Nat) : Nat × Nat × Nat :=
+  if q = 0 then (a.1 + 1, a.2.1, a.2.2) else if q = 1 then (a.1, a.2.1 + 1, a.2.2) else (a.1, a.2.1, a.2.2 + 1)
+def dec (a : Nat × Nat × Nat) (q : Nat) : Nat × Nat × Nat :=
+  if q = 0 then (a.1 - 1, a.2.1, a.2.2) else if q = 1 then (a.1, a.2.1 - 1, a.2.2) else (a.1, a.2.1, a.2.2 - 1)
+def deg (a : Nat × Nat × Nat) : Nat := a.1 + a.2.1 + a.2.2
+
+theorem rowOf_lt (a : Nat × Nat × Nat) : rowOf a < ncart (deg a) := by
+  obtain ⟨k, l, m⟩ := a
+  exact nIdx_lt_ncart (by simp only [deg]; omega)
+
+/-- the row of a component, looked up in the loop order of its own shell, is that component -/
+theorem cartList_rowOf (a : Nat × Nat × Nat) : (cartList (deg a))[rowOf a]? = some a := by
+  obtain ⟨k, l, m⟩ := a
+  simp only [deg, rowOf]
+  rw [cartList_get_tri _ l m (by omega)]
+  have hk : k + l + m - l - m = k := by omega
+  rw [hk]
+
+/-! ### left_shell_derivative -/
+
+section
+variable {R : Type} [CommRing R]
+
+/-- `Q_minus.dims[0]` as the routine sees it: the (LA−1)-shell when LA > 0 (unused when LA = 0) -/
+def qmRows (LA : Nat) : Nat := ncart (LA - 1)
+
+/-- **the routine computes −a_q·Q₋[a − e_q] + 2·Q₊[a + e_q]** for every component `a` of every
+shell and every coordinate q; the `Q₋` term is absent exactly when a_q = 0 (whatever row the clamps
+selected). -/
+theorem leftFirst_spec (a : Nat × Nat × Nat) (q : Nat) (hq : q < 3) (nB : Nat) (Qm Qp : Blk R) :
+    leftFirst (deg a) (qmRows (deg a)) Qm Qp q (rowOf a) nB
+      = (if comp a q = 0 then 0 else -((comp a q : Nat) : R) * Qm (rowOf (dec a q)) nB)
+        + 2 * Qp (rowOf (inc a q)) nB := by
+  obtain ⟨k, l, m⟩ := a
+  simp only [deg, rowOf, comp, inc, dec, qmRows]
+  by_cases h0 : k + l + m = 0
+  · obtain rfl : k = 0 := by omega
+    obtain rfl : l = 0 := by omega
+    obtain rfl : m = 0 := by omega
+    interval_cases q <;> simp [leftFirst, nIdx_eq_nat, two]
+  · rw [leftFirst_pos k l m (by omega)]
+    interval_cases q
+    · by_cases hk : k = 0
+      · subst hk; simp [two]
+      · have hlt := nIdx_lt_ncart (l := l) (m := m) (L := k + l + m - 1) (by omega)
+        have hmin : min (nIdx l m) (ncart (k + l + m - 1) - 1) = nIdx l m := by omega
+        rw [hmin]; simp [two, hk]
+    · by_cases hl : l = 0
+      · subst hl; simp [two]
+      · simp [two, hl, Nat.pos_of_ne_zero hl]
+    · by_cases hm : m = 0
+      · subst hm; simp [two]
+      · simp [two, hm, Nat.pos_of_ne_zero hm]
+
+/-- the rows addressed by the formula are inside the shifted shells -/
+theorem leftFirst_rows_in_range (a : Nat × Nat × Nat) (q : Nat) (hq : q < 3) :
+    rowOf (inc a q) < ncart (deg a + 1) ∧ (comp a q ≠ 0 → rowOf (dec a q) < ncart (deg a - 1)) := by
+  obtain ⟨k, l, m⟩ := a
+  simp only [deg, rowOf]
+  interval_cases q <;> simp only [inc, dec, comp] <;> simp <;>
+    refine ⟨nIdx_lt_ncart (by omega), fun h => nIdx_lt_ncart (by omega)⟩
+
+/-- … and so is every row the code actually reads from `Q_minus`, clamps included (LA > 0) -/
+theorem leftFirst_clamps_in_range (k l m : Nat) (hL : 0 < k + l + m) :
+    min (nIdx l m) (qmRows (k + l + m) - 1) < qmRows (k + l + m) ∧
+    (if l > 0 then nIdx (l - 1) m else 0) < qmRows (k + l + m) ∧
+    (if m > 0 then nIdx l (m - 1) else 0) < qmRows (k + l + m) := by
+  have hpos := ncart_pos (k + l + m - 1)
+  simp only [qmRows]
+  refine ⟨by omega, ?_, ?_⟩
+  · split
+    · exact nIdx_lt_ncart (by omega)
+    · exact hpos
+  · split
+    · exact nIdx_lt_ncart (by omega)
+    · exact hpos
+
+/-! ### compute_shell_pair_derivative -/
+
+/-- three distinct centres: A-block = QA, B-block = QBᵀ, C-block = −(A + B) -/
+theorem pairFirst_distinct (QA QB : Nat → Blk R) (q : Nat) (hq : q < 3) (nA nB : Nat) :
+    pairFirst true true QA QB q nA nB = QA q nA nB ∧
+    pairFirst true true QA QB (3 + q) nA nB = QB q nB nA ∧
+    pairFirst true true QA QB (6 + q) nA nB = -(QA q nA nB + QB q nB nA) := by
+  interval_cases q <;> simp [pairFirst, tr]
+
+/-- **translational sum rule** in every branch: the three centre contributions sum to zero -/
+theorem pairFirst_sum_rule (aOff bOff : Bool) (QA QB : Nat → Blk R) (q : Nat) (hq : q < 3) (nA nB : Nat) :
+    pairFirst aOff bOff QA QB q nA nB + pairFirst aOff bOff QA QB (3 + q) nA nB
+      + pairFirst aOff bOff QA QB (6 + q) nA nB = 0 := by
+  cases aOff <;> cases bOff <;> interval_cases q <;> simp [pairFirst, tr, zeroB]
+
+/-- **additivity at coincident centres**: with shell A on the ECP centre the A- and C-blocks together
+carry −∂_B (the derivative of moving A and C together, by translational invariance); likewise with B
+on the ECP; with both on it everything vanishes. -/
+theorem pairFirst_coincident (QA QB : Nat → Blk R) (q : Nat) (hq : q < 3) (nA nB : Nat) :
+    (pairFirst false true QA QB q nA nB + pairFirst false true QA QB (6 + q) nA nB = -(QB q nB nA) ∧
+      pairFirst false true QA QB (3 + q) nA nB = QB q nB nA) ∧
+    (pairFirst true false QA QB (3 + q) nA nB + pairFirst true false QA QB (6 + q) nA nB = -(QA q nA nB) ∧
+      pairFirst true false QA QB q nA nB = QA q nA nB) ∧
+    (∀ i, pairFirst false false QA QB i nA nB = 0) := by
+  refine ⟨?_, ?_, ?_⟩
+  · interval_cases q <;> simp [pairFirst, tr, zeroB]
+  · interval_cases q <;> simp [pairFirst, zeroB]
+  · intro i; simp [pairFirst, zeroB]
+
+end
+
+/-! ### the identity the routine implements -/
+
+/-- d/dA [(x−A)^k e^{−α(x−A)²}] = −k (x−A)^{k−1} e^{…} + 2α (x−A)^{k+1} e^{…}
+(the factor α is what "multiplying the exponents into the coefficients" supplies) -/
+theorem deriv_gaussian_monomial (k : ℕ) (α x A : ℝ) :
+    HasDerivAt (fun A : ℝ => (x - A) ^ k * Real.exp (-α * (x - A) ^ 2))
+      (-(k : ℝ) * (x - A) ^ (k - 1) * Real.exp (-α * (x - A) ^ 2)
+        + 2 * α * (x - A) ^ (k + 1) * Real.exp (-α * (x - A) ^ 2)) A := by
+  have h1 : HasDerivAt (fun A : ℝ => x - A) (-1) A := by
+    simpa using (hasDerivAt_id A).const_sub x
+  have h2 : HasDerivAt (fun A : ℝ => (x - A) ^ k) ((k : ℝ) * (x - A) ^ (k - 1) * (-1)) A :=
+    HasDerivAt.fun_pow h1 k
+  have h3 : HasDerivAt (fun A : ℝ => -α * (x - A) ^ 2)
+      (-α * (((2 : ℕ) : ℝ) * (x - A) ^ (2 - 1) * (-1))) A :=
+    (HasDerivAt.fun_pow h1 2).const_mul (-α)
+  have h4 : HasDerivAt (fun A : ℝ => (x - A) ^ k * Real.exp (-α * (x - A) ^ 2)) _ A :=
+    h2.mul h3.exp
+  refine h4.congr_deriv ?_
+  simp only [Nat.cast_ofNat, Nat.add_one_sub_one, pow_succ]
+  ring
+
+/-! ### non-vacuity -/
+example : leftFirst (α := Int) 2 (qmRows 2) (fun i j => 10 * i + j) (fun i j => 100 * i + j) 1 (rowOf (1,1,0)) 3
+    = -1 * (10 * (rowOf (1,0,0) : Int) + 3) + 2 * (100 * (rowOf (1,2,0) : Int) + 3) := by decide
 
 end Ecpint.C02
